@@ -225,6 +225,65 @@ type c01slExchange struct {
 	upID     uint64
 	oneway   bool
 	scribble bool
+	mod      string // "" | body-<n> | add-key: applied to the frame under test between receive and forward
+}
+
+// c01slMod is a modification a stream filter makes between receive and forward:
+// a replaced data buffer (another object: handler.SetRequestData) or one more
+// header pair (HeaderMap.Set).
+type c01slMod struct {
+	grp  string
+	data buffer.IoBuffer
+	want func(id uint64) []byte // reference frame carrying the modification (nil: the codec has no encoder for it)
+	orig func(id uint64) []byte
+}
+
+func (x *c01slExchange) applyMod(h api.HeaderMap, firstID uint64) (m *c01slMod, pan string) {
+	sp := x.cd.sp
+	m = &c01slMod{orig: func(id uint64) []byte { return sp.Frame(x.c, id) }}
+	if x.mod == "add-key" {
+		m.grp = "headers"
+		if sp.AddHeader != nil {
+			m.want = func(id uint64) []byte { return sp.AddHeader(x.c, id, vc01sl.ModKey, vc01sl.ModVal) }
+		}
+		return m, c01slGuard(func() { h.Set(vc01sl.ModKey, vc01sl.ModVal) })
+	}
+	var n int
+	if _, err := fmt.Sscanf(x.mod, "body-%d", &n); err != nil {
+		panic("c01sl: unknown modification " + x.mod)
+	}
+	m.grp = "body"
+	data, _ := sp.ModBody(x.c, firstID, n)
+	m.data = buffer.NewIoBufferBytes(append([]byte{}, data...))
+	m.want = func(id uint64) []byte { _, f := sp.ModBody(x.c, id, n); return f }
+	return m, ""
+}
+
+// judge decides about the Write calls of one forward of the modified frame.
+// res "" = carries the modification; stop: nothing more to check in this exchange.
+func (m *c01slMod) judge(x *c01slExchange, rep string, id uint64, writes [][]byte) (res, detail string, stop bool) {
+	sp := x.cd.sp
+	what := "modify=" + m.grp + " " + rep
+	switch {
+	case len(writes) == 0:
+		// Encode refused, the stream was reset: "or is refused with an error"
+		if sp.MustAccept && m.want != nil {
+			return what + "representable-modification-refused", "the modified frame fits the wire format, yet nothing was written (Encode refused it)", true
+		}
+		return "", "", true
+	case len(writes) > 1:
+		return what + "forwarded-frame-written-more-than-once", fmt.Sprintf("%d Write calls for one frame", len(writes)), true
+	}
+	got := writes[0]
+	switch {
+	case m.want != nil && sp.Same(x.c, m.want(id), got):
+		return "", "", false
+	case sp.Same(x.c, m.orig(id), got):
+		return what + "re-encoded-frame-does-not-carry-the-modified-content", fmt.Sprintf("mod %s: the frame written is the frame as received (id %d): the modification was silently ignored", x.mod, id), true
+	case m.want == nil:
+		return "", "", true
+	}
+	return what + "re-encoded-frame-differs-from-the-modified-content", fmt.Sprintf("mod %s, id %d: %s", x.mod, id, vref.FirstDiff(m.want(id), got)), true
 }
 
 type c01slResult struct {
@@ -340,9 +399,19 @@ func (x *c01slExchange) run() c01slResult {
 			return fail(x.reqDir, c01slViewChanged, "headers/data handed to the receiver (Range, Bytes) before and after the downstream connection's read buffer was refilled by the next read differ: %s", df)
 		}
 	}
-	reqData := c01slSnap(d.data)
 	// ---- forward: first try + two retries
 	ids := []uint64{x.upID, x.downID, x.upID}
+	var mod *c01slMod
+	if x.mod != "" && x.reqCase {
+		var pan string
+		if mod, pan = x.applyMod(d.headers, x.upID); pan != "" {
+			return fail(x.reqDir, "modify="+mod.grp+" panics", "modifying the received frame through its HeaderMap panicked: %s", pan)
+		}
+		if mod.data != nil {
+			d.data = mod.data
+		}
+	}
+	reqData := c01slSnap(d.data)
 	var (
 		U    *streamConn
 		up   *vfake.Conn
@@ -386,6 +455,20 @@ func (x *c01slExchange) run() c01slResult {
 		want := x.req(sid)
 		if !bytes.Equal(want, x.req(id)) {
 			return c01slResult{harness: fmt.Sprintf("client stream id preset failed: wanted the id of %d, the connection allocated %d (%+v)", id, sid, x.c)}
+		}
+		if mod != nil {
+			rep := ""
+			if t > 0 {
+				rep = "repeated-encode-of-same-frame "
+			}
+			res, detail, stop := mod.judge(x, rep, sid, up.Writes)
+			if res != "" {
+				return fail(x.reqDir, res, "attempt %d: %s", t+1, detail)
+			}
+			if stop {
+				return c01slResult{res: "ok", dir: "refused-or-not-compared"}
+			}
+			want = up.Writes[0]
 		}
 		switch {
 		case len(up.Writes) == 0:
@@ -464,6 +547,15 @@ func (x *c01slExchange) run() c01slResult {
 			return fail(x.respDir, c01slViewChanged, "headers/data handed to the receiver (Range, Bytes) before and after the upstream connection's read buffer was refilled by the next read differ: %s", df)
 		}
 	}
+	if x.mod != "" && !x.reqCase {
+		var pan string
+		if mod, pan = x.applyMod(recv.headers, x.downID); pan != "" {
+			return fail(x.respDir, "modify="+mod.grp+" panics", "modifying the received frame through its HeaderMap panicked: %s", pan)
+		}
+		if mod.data != nil {
+			recv.data = mod.data
+		}
+	}
 	respData := c01slSnap(recv.data)
 	var aerr error
 	pan := c01slGuard(func() {
@@ -484,13 +576,23 @@ func (x *c01slExchange) run() c01slResult {
 	if aerr != nil {
 		return fail(x.respDir, "encode-refuses-unmodified-frame", "AppendHeaders/AppendData on the server stream returned %v", aerr)
 	}
+	want := x.resp(x.downID)
+	if mod != nil && !x.reqCase {
+		res, detail, stop := mod.judge(x, "", x.downID, down.Writes)
+		if res != "" {
+			return fail(x.respDir, res, "%s", detail)
+		}
+		if stop {
+			return c01slResult{res: "ok", dir: "refused-or-not-compared"}
+		}
+		want = down.Writes[0]
+	}
 	switch {
 	case len(down.Writes) == 0:
 		return fail(x.respDir, "response-not-forwarded", "AppendHeaders/AppendData returned, nothing was written downstream (connection closed=%v)", down.IsClosed())
 	case len(down.Writes) > 1:
 		return fail(x.respDir, "forwarded-frame-written-more-than-once", "%d Write calls downstream for one response", len(down.Writes))
 	}
-	want := x.resp(x.downID)
 	if got := down.Writes[0]; !bytes.Equal(got, want) {
 		cl := x.classify(!x.reqCase, false, x.resp, sid, want, got)
 		return fail(x.respDir, cl, "expected the received response with only the request id replaced by the downstream's %d (the upstream answered with %d): %s", x.downID, sid, vref.FirstDiff(want, got))
@@ -574,7 +676,7 @@ func c01slKey(sp *vc01sl.Spec, c vc01.Case, dir, what string) string {
 
 func c01slExchangeOf(cd *c01slCodec, c vc01.Case, role string) *c01slExchange {
 	sp := cd.sp
-	x := &c01slExchange{cd: cd, c: c, scribble: c.Scribble}
+	x := &c01slExchange{cd: cd, c: c, scribble: c.Scribble, mod: c.Mod}
 	caseFrame := func(id uint64) []byte { return sp.Frame(c, id) }
 	if role == vc01sl.Response {
 		x.req = func(id uint64) []byte { return sp.Std(false, id) }
@@ -593,7 +695,7 @@ func c01slExchangeOf(cd *c01slCodec, c vc01.Case, role string) *c01slExchange {
 
 func c01slCheck(p *vreport.Part, cd *c01slCodec, c vc01.Case) {
 	sp := cd.sp
-	p.Distinct(fmt.Sprintf("%s|%s|%s|%d|%s|%d|%d|%d|%d|%s|%d|%s", c.Codec, c.Dir, c.Kind, c.Class, c.Hdr, c.Body, c.Seed, c.ID, c.NewID, c.Field, c.Val, c.Mode))
+	p.Distinct(fmt.Sprintf("%s|%s|%s|%d|%s|%d|%d|%d|%d|%s|%d|%s|%s", c.Codec, c.Dir, c.Kind, c.Class, c.Hdr, c.Body, c.Seed, c.ID, c.NewID, c.Field, c.Val, c.Mode, c.Mod))
 	if sp.Skip != nil {
 		if why := sp.Skip(c); why != "" {
 			p.Outcome("not-compared:" + why)
@@ -630,6 +732,13 @@ func c01slCheck(p *vreport.Part, cd *c01slCodec, c vc01.Case) {
 		return
 	}
 	switch {
+	case r.res == "ok" && c.Mod != "":
+		if r.dir != "" {
+			p.Outcome("modified:" + r.dir)
+			p.Count("modified_"+r.dir, 1)
+		} else {
+			p.Outcome("modified:carried-by-the-forwarded-frame")
+		}
 	case r.res == "ok":
 		p.Outcome(role + ":forwarded-identical")
 	case c.Scribble && r.res == c01slViewChanged:
@@ -666,12 +775,21 @@ const c01slRule = "one case = one exchange: the reference frame (vref) is dispat
 
 func c01slPart(t *testing.T, name string, cd *c01slCodec) {
 	c01slInit()
+	c01slRunPart(name, cd, cd.sp.Cases, cd.sp.Bound+" x {read buffers left alone, refilled by the next read}", c01slRule)
+	c01slRunPart(name+"-modify", cd, cd.sp.ModCases,
+		"dirs of the codec x class-like length {1,256 (tars 100)} x 2-3 small header/map shapes x body {0,1,256,65536 | thorough: all} x modifications "+fmt.Sprint(vc01sl.ModNames)+" x {read buffers left alone, refilled by the next read}",
+		c01slModRule)
+}
+
+const c01slModRule = "as the fidelity part, but between receive and forward the frame under test is modified the way a stream filter does: body-<n> = a NEW data buffer object with n content bytes is handed to AppendData instead of the received one (handler.SetRequestData/SetResponseData); add-key = one more pair through HeaderMap.Set on the received headers. Request cases modify the request (first try + two retries with the same replaced objects), response cases the response. The frame written must be, for the reference parser, exactly the reference frame carrying the modification and the forwarded id (header/map order ignored), or nothing is written (Encode refused; bolt/boltv2 may not refuse what fits the wire format); a frame equal to the unmodified one = modification silently ignored. add-key on dubbo/dubbothrift/tars (header maps are views without an encoder): only 'silently ignored' is decided. scribble twin: the read buffer is refilled before the modification"
+
+func c01slRunPart(name string, cd *c01slCodec, cases func(yield func(vc01.Case) bool), bound, rule string) {
 	p := vreport.Begin("C01", "streamlayer-"+name, time.Duration(vreport.Pick(120, 1500))*time.Second)
 	si, sn := vreport.Shard()
 	idx := 0
 	complete := vreport.Run(p,
 		func(yield func(vc01.Case) bool) {
-			cd.sp.Cases(func(c vc01.Case) bool {
+			cases(func(c vc01.Case) bool {
 				// twins stay in one shard
 				k := idx / 2
 				idx++
@@ -682,7 +800,7 @@ func c01slPart(t *testing.T, name string, cd *c01slCodec) {
 			})
 		},
 		func(p *vreport.Part, c vc01.Case) { c01slCheck(p, cd, c) })
-	p.End(complete, cd.sp.Bound+" x {read buffers left alone, refilled by the next read}", c01slRule)
+	p.End(complete, bound, rule)
 }
 
 func TestVerifC01StreamLayerBolt(t *testing.T) {
